@@ -101,3 +101,55 @@ Proof.
   unfold nd_class. destruct (v_class (vmof (set_vstate t VDestroyed s) t)); [|exact Hu].
   destruct (remove t _); exact Hu.
 Qed.
+
+(* what nd_result leaves alone *)
+Lemma nd_class_threads t s : threads (nd_class t s) = threads s /\ tpool (nd_class t s) = tpool s /\
+  elems (nd_class t s) = elems s /\ cur (nd_class t s) = cur s /\ vms (nd_class t s) = vms s /\ vpool (nd_class t s) = vpool s /\
+  ub (nd_class t s) = ub s /\ oof (nd_class t s) = oof s /\ dirty (nd_class t s) = dirty s.
+Proof.
+  unfold nd_class. destruct (v_class (vmof s t)); [|repeat split; reflexivity].
+  destruct (remove t _); repeat split; reflexivity.
+Qed.
+Lemma nd_result_fields t s :
+  threads (nd_result t s) = threads s /\ tpool (nd_result t s) = tpool s /\ elems (nd_result t s) = elems s /\
+  cur (nd_result t s) = cur s /\ ub (nd_result t s) = ub s /\ oof (nd_result t s) = oof s /\ dirty (nd_result t s) = dirty s.
+Proof.
+  unfold nd_result.
+  destruct (nd_class_threads t (set_vstate t VDestroyed s)) as (E1 & E2 & E3 & E4 & _ & _ & E7 & E8 & E9).
+  destruct (v_state (vmof s t)); prj; rewrite ?E1, ?E2, ?E3, ?E4, ?E7, ?E8, ?E9; repeat split; reflexivity.
+Qed.
+Lemma nd_result_vm t s x :
+  vmof (nd_result t s) x = if x =? t then mkV (v_class (vmof s t)) VDestroyed (v_cont (vmof s t)) else vmof s x.
+Proof.
+  unfold nd_result.
+  destruct (nd_class_threads t (set_vstate t VDestroyed s)) as (_ & _ & _ & _ & E5 & _).
+  assert (E : vmof (nd_class t (set_vstate t VDestroyed s)) x = vmof (set_vstate t VDestroyed s) x) by (unfold vmof; now rewrite E5).
+  destruct (v_state (vmof s t)); unfold vmof in *; prj; rewrite E; apply get_set.
+Qed.
+Lemma nd_result_vpool t s :
+  vpool (nd_result t s) = match v_state (vmof s t) with VIdling => remove t (vpool s) | _ => vpool s end.
+Proof.
+  unfold nd_result.
+  destruct (nd_class_threads t (set_vstate t VDestroyed s)) as (_ & _ & _ & _ & _ & E6 & _).
+  destruct (v_state (vmof s t)); prj; rewrite E6; reflexivity.
+Qed.
+
+(* ---- ~Listener of a dying thread ------------------------------------------------------------------ *)
+Definition unreg_result (t : N) (s : st) : st :=
+  match t_notify (th s t) with
+  | None => s
+  | Some p => start_timing p 0 (set_notify t None (set_waitfor p None s))
+  end.
+Lemma unregister_all_eq t s :
+  (forall p, t_notify (th s t) = Some p ->
+     p <> t /\ In p (tpool s) /\ t_waitfor (th s p) = Some t /\ t_vm (th s p) = true /\ t_state (th s p) = TWaiting) ->
+  unregister_all t s = unreg_result t s.
+Proof.
+  intro H. unfold unregister_all, unreg_result. destruct (t_notify (th s t)) as [p|]; [|reflexivity].
+  destruct (H p eq_refl) as (Hne & Hin & Hw & Hv & Hs).
+  apply memb_in in Hin. rewrite Hin. cbn [negb]. rewrite Hw. rewrite !N.eqb_refl.
+  unfold stopped_wait_for.
+  assert (E : th (set_notify t None (set_waitfor p None s)) p = mkT (t_vm (th s p)) (t_state (th s p)) None (t_notify (th s p))).
+  { rewrite th_set_notify, !th_set_waitfor. destruct (N.eqb_spec p t); [congruence|]. now rewrite N.eqb_refl. }
+  rewrite E. prj. rewrite Hv, Hs. reflexivity.
+Qed.
